@@ -923,6 +923,8 @@ impl QuicSocket {
     }
 
     pub fn write(&self, stream_id: u64, mut data: Bytes) -> io::Result<Bytes> {
+        #[cfg(trusttunnel_verif)]
+        crate::verif::shutdown::sync::gate("quic_socket:write:enter");
         match self.h3_conn.lock().unwrap().send_body(
             &mut self.quic_conn.lock().unwrap(),
             stream_id,
@@ -990,6 +992,10 @@ impl QuicSocket {
     pub fn graceful_shutdown(&self) -> io::Result<()> {
         {
             let mut quic_conn = self.quic_conn.lock().unwrap();
+            #[cfg(trusttunnel_verif)]
+            crate::verif::shutdown::sync::gate_probe("quic_socket:graceful_shutdown:between_locks", &|| {
+                (self.h3_conn.try_lock().is_err(), self.quic_conn.try_lock().is_err())
+            });
             let mut h3_conn = self.h3_conn.lock().unwrap();
             for stream_id in quic_conn.writable() {
                 let _ = h3_conn.send_body(&mut quic_conn, stream_id, &[], true);
